@@ -292,5 +292,14 @@ def tbl (H : Heap) : Nat → List Body
 /-- heap to tree -/
 def flat (H : Heap) (v : HVal) : Val := rv (tbl H H.length) v
 
+/-- `Reveal` on a tree: allocate its heap, run, read the receiver back -/
+def RevealTree (fuel : Nat) (t : Val) : Except Abort Val :=
+  match (ofTree t).1 with
+  | .stk f root =>
+    (match Reveal fuel (ofTree t).2 root with
+     | .ok s => .ok (flat s.heap (.stk f root))
+     | .error e => .error e)
+  | _ => .ok t          -- not an initialised Stack: nothing happens
+
 end RevealHeap
 end Stackage
